@@ -5,6 +5,7 @@ package ingest
 import (
 	"context"
 	"errors"
+	"sync"
 	"time"
 
 	"diagonal.works/b6"
@@ -21,6 +22,7 @@ import (
 
 type vhCtx struct {
 	parent   context.Context
+	mu       sync.Mutex // as in the real context: cancel and Err are synchronised (and so are scheduling points)
 	done     chan struct{}
 	canceled bool
 }
@@ -30,6 +32,8 @@ var vhErrCanceled = errors.New("context canceled")
 func (c *vhCtx) Deadline() (time.Time, bool) { return time.Time{}, false }
 func (c *vhCtx) Done() <-chan struct{}       { return c.done }
 func (c *vhCtx) Err() error {
+	c.mu.Lock()
+	defer c.mu.Unlock()
 	if c.canceled {
 		return vhErrCanceled
 	}
@@ -37,6 +41,8 @@ func (c *vhCtx) Err() error {
 }
 func (c *vhCtx) Value(key interface{}) interface{} { return nil }
 func (c *vhCtx) cancel() {
+	c.mu.Lock()
+	defer c.mu.Unlock()
 	if !c.canceled {
 		c.canceled = true
 		close(c.done)
